@@ -98,6 +98,12 @@ CondSwallowed(M, TS, ctx, o, r) ==
     /\ <<te.o, te.r>> \in rk /\ te.c # "" /\ TupleReadValid(M, te) /\ CondVal(M, te, ctx) = "E"
     /\ \E sib \in TS \ {te} : sib.o = te.o /\ sib.r = te.r /\ TupleReadValid(M, sib) /\ CondVal(M, sib, ctx) = "T"
 
+\* KF-22 call site: the subject is a plain object of a type that has relations of its own (e.g. group:1
+\* rather than group:1#member) and some tuple names a userset of that very object.
+PlainOfRelType(M, TS, u) ==
+  /\ IsPlain(u) /\ \E e \in RelDefs(M) : e.t = u.t
+  /\ \E t \in TS : t.u.t = u.t /\ t.u.id = u.id /\ t.u.rel # ""
+
 \* Every valid conditional tuple on the evaluation's read set that cannot be evaluated belongs to an
 \* object other than the one the request names.
 CondErrorBelowRoot(M, TS, ctx, o, r) ==
@@ -145,6 +151,7 @@ CheckClass(M, TS, ev) ==
   IF DepthBound(M, TS, ev.o, ev.r) > DepthLimit THEN <<"SKIP_DEPTH", ref>>
   ELSE CASE ev.got = "T" -> IF ref = "T" THEN <<"OK_T", ref>>
                             ELSE IF ref = "F" /\ MixedCondPair(M, TS, ev.ctx, ev.o, ev.r, ev.u) THEN <<"KF_Weight2MixedCondSameObject", ref>>
+                            ELSE IF ref = "F" /\ PlainOfRelType(M, TS, ev.u) THEN <<"KF_PlainSubjectOfRelationalType", ref>>
                             ELSE <<"BAD_ALLOWED", ref>>
          [] ev.got = "F" -> IF ref = "F" THEN <<"OK_F", ref>>
                             ELSE IF ref = "T" THEN
@@ -323,11 +330,18 @@ ListObjectsClass(M, TS, ev) ==
             \* the request did not return (supervisor watchdog): the pipeline does not tear down
             \* its cycle groups on some models with dependency cycles (see DESIGN 6, KF-6)
             ELSE IF ev.errk = "hang" /\ HasTypeCycle(M, ev.t, ev.r) THEN <<"KF_PipelineCycleHang", "">>
+            ELSE IF ev.errk = "internal" /\ PlainOfRelType(M, TS, ev.u) THEN <<"KF_PlainSubjectOfRelationalType", ToString(R)>>
             ELSE <<"BAD_LO_ERR", ToString(R)>>
      ELSE IF Len(ev.got) # Cardinality(X) THEN <<"BAD_LO_DUP", ToString(R)>>
      ELSE IF ~(X \subseteq R) THEN
             (IF \A i \in (X \ R) : i \in ids /\ val[i] = "F" /\ MixedCondPair(M, TS, ev.ctx, [t |-> ev.t, id |-> i], ev.r, ev.u)
-             THEN <<"KF_Weight2MixedCondSameObject", ToString(R)>> ELSE <<"BAD_LO_UNSOUND", ToString(R)>>)
+             THEN <<"KF_Weight2MixedCondSameObject", ToString(R)>>
+             \* the engine decided objects whose value cannot be decided: an unevaluable condition was swallowed
+             ELSE IF \A i \in (X \ R) : i \in ids /\ val[i] = "E"
+                        /\ (CondSwallowed(M, TS, ev.ctx, [t |-> ev.t, id |-> i], ev.r) \/ CondErrorBelowRoot(M, TS, ev.ctx, [t |-> ev.t, id |-> i], ev.r))
+             THEN <<"KF_CondErrorSwallowedBelowRoot", ToString(R)>>
+             ELSE IF PlainOfRelType(M, TS, ev.u) THEN <<"KF_PlainSubjectOfRelationalType", ToString(R)>>
+             ELSE <<"BAD_LO_UNSOUND", ToString(R)>>)
      ELSE IF ev.limit = 0 \/ Cardinality(R) < ev.limit THEN
             IF X = R THEN <<"OK_LO", "">>
             ELSE IF \A i \in R \ X : kf(i) THEN <<"KF_ExclSubtractCycle", ToString(R)>>
